@@ -1,4 +1,5 @@
 import CqlVerif.Model.Ring
+import CqlVerif.Lemmas.Ring
 /-!
 # C10 — Virtual system.local / system.peers present a correct, mutually consistent ring
 -/
@@ -154,6 +155,74 @@ theorem self_not_a_peer (la : Addr) (dc : String) (own : Bool) (ps : List PeerCf
             rcases List.mem_cons.mp hn with rfl | hn
             · exact ⟨fun e => hne (by simpa using e.symm), rfl⟩
             · exact ih rest hrest n hn
+
+theorem keys_local_peers (S : List Addr) (a : Addr) (hnd : S.Nodup) (ha : a ∈ S) :
+    (a :: S.filter (fun x => x != a)).Perm S := by
+  rw [← hnd.erase_eq_filter a]
+  exact (List.perm_cons_erase ha).symm
+
+theorem buildNodes_calc (c : Cfg) (a : Addr) (ns : List Node) (hr : c.rpc = some a) (ht : c.tokens = [])
+    (hp : peerNodes (some a) (if c.dc = "" then c.clusterDC else c.dc) false c.peers = .ok ns) (hne : ns ≠ []) :
+    buildNodes c = .ok (assignTokens c.peers.length 0 (sortNodes
+      ({ addr := some a, name := c.rpcName, dc := if c.dc = "" then c.clusterDC else c.dc,
+         tokens := [toString minInt64], isLocal := true } :: ns))) := by
+  have hlen : 0 < ns.length := List.length_pos_iff.mpr hne
+  simp [buildNodes, hr, ht, hp, hlen]
+
+/-- **proxies_agree** — two proxies configured with the same list of peer addresses (every entry
+with an address, no address twice, each proxy's own address among them, at least two members,
+neither configuring tokens by hand) build the same ring: the same addresses in the same order
+with the same token each, whatever order the shared list is written in and whichever of them a
+driver happens to ask. -/
+theorem proxies_agree (cA cB : Cfg) (a b : Addr)
+    (hA : cA.rpc = some a) (hB : cB.rpc = some b) (htA : cA.tokens = []) (htB : cB.tokens = [])
+    (hshared : (cA.peers.filterMap (·.addr)).Perm (cB.peers.filterMap (·.addr)))
+    (hallA : ∀ p ∈ cA.peers, p.addr.isSome = true) (hallB : ∀ p ∈ cB.peers, p.addr.isSome = true)
+    (hnd : (cA.peers.filterMap (·.addr)).Nodup)
+    (haIn : a ∈ cA.peers.filterMap (·.addr)) (hbIn : b ∈ cB.peers.filterMap (·.addr))
+    (h2 : 2 ≤ cA.peers.length) :
+    ∃ nA nB, buildNodes cA = .ok nA ∧ buildNodes cB = .ok nB ∧ nA.map view = nB.map view := by
+  obtain ⟨nsA, hokA, hkA⟩ := peerNodes_ok a (if cA.dc = "" then cA.clusterDC else cA.dc) cA.peers hallA
+  obtain ⟨nsB, hokB, hkB⟩ := peerNodes_ok b (if cB.dc = "" then cB.clusterDC else cB.dc) cB.peers hallB
+  have hndB : (cB.peers.filterMap (·.addr)).Nodup := hshared.nodup_iff.mp hnd
+  -- every entry has an address: the address lists are as long as the peer lists
+  have lenS : ∀ (l : List PeerCfg), (∀ p ∈ l, p.addr.isSome = true) → (l.filterMap (·.addr)).length = l.length := by
+    intro l hl
+    induction l with
+    | nil => rfl
+    | cons p ps ih =>
+      have hp := hl p List.mem_cons_self
+      cases hpa : p.addr with
+      | none => rw [hpa] at hp; cases hp
+      | some x => simp [List.filterMap_cons, hpa, ih (fun q hq => hl q (List.mem_cons_of_mem _ hq))]
+  have lenA := lenS cA.peers hallA
+  have lenB := lenS cB.peers hallB
+  have lenAB : cA.peers.length = cB.peers.length := by rw [← lenA, ← lenB]; exact hshared.length_eq
+  have permA := keys_local_peers _ a hnd haIn
+  have permB := keys_local_peers _ b hndB hbIn
+  have neA : nsA ≠ [] := by
+    intro e
+    have : (nsA.map key).length = 0 := by rw [e]; rfl
+    rw [hkA] at this
+    have hl := permA.length_eq
+    simp only [List.length_cons] at hl
+    omega
+  have neB : nsB ≠ [] := by
+    intro e
+    have : (nsB.map key).length = 0 := by rw [e]; rfl
+    rw [hkB] at this
+    have hl := permB.length_eq
+    simp only [List.length_cons] at hl
+    omega
+  refine ⟨_, _, buildNodes_calc cA a nsA hA htA hokA neA, buildNodes_calc cB b nsB hB htB hokB neB, ?_⟩
+  rw [lenAB]
+  apply ring_agreement
+  · show ((key _ :: nsA.map key)).Nodup
+    rw [hkA]
+    exact permA.nodup_iff.mpr hnd
+  · show (key _ :: nsA.map key).Perm (key _ :: nsB.map key)
+    rw [hkA, hkB]
+    exact (permA.trans hshared).trans permB.symm
 
 /-- non-vacuity: three proxies' shared list, the middle address is this proxy: tokens follow the
 address order starting at the minimum token -/
